@@ -125,6 +125,33 @@ def probe_portfolio(spec):
             except Exception as e:
                 o['out'] = None
                 o['out_error'] = repr(e)[:300]
+    if opts.get('refix') and o.get('solve') == 'optimal':
+        # rolling use: the first steps are fixed to this solution, but the portfolio has changed meanwhile (other transport losses /
+        # commodity factors): the result may be a failure, never an unbalanced solution
+        try:
+            import copy as _cp
+            sp2 = _cp.deepcopy(spec)
+            pr4 = mk_prices(spec)
+            if opts.get('refix_mode') == 'prices':
+                # the same portfolio, re-optimised with new prices behind the fixed window
+                pr4 = {kk: (v[::-1] * 0.75 + 0.5 if kk.startswith('p') else v) for kk, v in pr4.items()}
+            for a in (sp2['assets'] if opts.get('refix_mode') != 'prices' else []):
+                if a['kind'] in ('Transport', 'ExtendedTransport'):
+                    a['efficiency'] = a.get('efficiency', 1.0) * 0.5
+                if a['kind'] == 'MultiCommodityContract':
+                    a['factors_commodities'] = [a['factors_commodities'][0]] + [f * 0.5 for f in a['factors_commodities'][1:]]
+            pf4 = mk_portfolio(sp2)
+            tg4 = mk_grid(spec['grid'])
+            k4 = max(1, int(opts['refix']) % max(tg4.T, 1))
+            fw = {'I': np.arange(tg4.T) < k4, 'x': np.asarray(o['x'], float)}
+            op4 = pf4.setup_optim_problem(pr4, tg4, fix_time_window=fw)
+            r4 = op4.optimize()
+            o['refix'] = {'solve': r4 if isinstance(r4, str) else 'optimal', 'k': k4}
+            if not isinstance(r4, str):
+                o['refix'].update(value=float(r4.value), x=[float(v) for v in r4.x], c=[float(v) for v in op4.c], mapping=dump_mapping(op4.mapping),
+                                  out=tables(pf4, op4, r4))
+        except Exception as e:
+            o['refix'] = {'solve': 'crash', 'error': repr(e)[:300]}
     if opts.get('slp'):
         # two-stage problem over price samples (stoch_lin_prog.make_slp), optimised and decoded through the same output function
         try:
